@@ -238,6 +238,14 @@ def Match.apply (mt : Match) (vals : List Value) : List Value × Bool :=
     let r := applyInPlace mt vals.length 0 0 vals
     (r.1.take r.2, decide (r.2 > 0))
 
+/-- the whole backing array of `res.Values` after `Match.Apply(res)`, as a second slice header on
+it would see it: untouched when `All()` or `!Any()` (only the length of `res.Values` changes),
+compacted in place otherwise -/
+def Match.applyBacking (mt : Match) (vals : List Value) : List Value :=
+  if mt.all then vals
+  else if !mt.any then vals
+  else (applyInPlace mt vals.length 0 0 vals).1
+
 /-- `Filter.Apply(res)` -/
 def filterApply (f : FilterFn) (res : Res) : Res × Bool :=
   let r := (filterMatch f res).apply res.values
